@@ -273,6 +273,22 @@ def run(case):
                     if p is None or len(p) != 3 or not all(math.isfinite(x) for x in p):
                         viol.append(V('c18.roundtrip_position_missing', f'{txt}: node {n} has position {p!r} although the RDKit molecule has a conformer'))
                         break
+            if not viol and case['sub_seed'] % 4 == 0:
+                # history: the graph that came back is edited (one oxygen becomes sulfur, or a saturated carbon silicon) and
+                # converted again: what goes in the second time is what must come back
+                import collections
+                cand = [(n, 'S') for n, d in back.nodes(data=True) if d.get('element') == 'O' and d.get('charge', 0) == 0 and not d.get('aromatic')]
+                cand = cand or [(n, 'Si') for n, d in back.nodes(data=True) if d.get('element') == 'C' and d.get('charge', 0) == 0 and not d.get('aromatic')
+                                and all(e.get('order', 1) == 1 for _, _, e in back.edges(n, data=True))]
+                if cand:
+                    n_, new_ = cand[case['sub_seed'] // 4 % len(cand)]
+                    back.nodes[n_]['element'] = new_
+                    want_el = collections.Counter(d.get('element') for _, d in back.nodes(data=True))
+                    again = rdkit_to_networkx(networkx_to_rdkit(back))
+                    got_el = collections.Counter(d.get('element') for _, d in again.nodes(data=True))
+                    counters['second_round_trip_after_an_edit'] = 1
+                    if got_el != want_el:
+                        viol.append(V('c18.roundtrip_atoms', f'{txt} [{case["variant"]}]: the graph that came back was edited (atom {n_} -> {new_}) and converted again: elements {dict(want_el)} went in, {dict(got_el)} came back'))
         except Exception as err:
             viol.append(V('c18.roundtrip_exception.' + type(err).__name__, f'{txt} [{case["variant"]}, conformer={case["conformer"]}]: raised {type(err).__name__}: {err}'))
         counters['roundtrips'] = 1
